@@ -400,7 +400,7 @@ package text
 //@   ensures  [untouched-on-error;C10] callres[parsley.Error](1, 2) == nil && callres[parsley.Node](1, 0) == nil ==> ncalls() == 1
 //@   ensures  [error-moved;C10,C12] callres[parsley.Error](1, 2) != nil ==> ncalls() == 2 && callarg[parsley.Pos](2, 1) == callres[parsley.Error](1, 2).Pos() && callarg[WsMode](2, 2) == wsMode && err != nil && (callres[parsley.Pos](2, 0) > callres[parsley.Error](1, 2).Pos() ==> err.Pos() == callres[parsley.Pos](2, 0) && same(err.Cause(), callres[parsley.Error](1, 2).Cause())) && (callres[parsley.Pos](2, 0) <= callres[parsley.Error](1, 2).Pos() ==> same(err, callres[parsley.Error](1, 2)))
 //@   ensures  [cp] err == nil && n != nil ==> same(cp, callres[data.IntSet](1, 1))
-//@   ensures  [trimmed-returned;C10] callres[parsley.Error](1, 2) == nil && callres[parsley.Node](1, 0) != nil && n != nil ==> same(n, callres[parsley.Node](2, 0))
+//@   ensures  [trimmed-returned;C10,C04] callres[parsley.Error](1, 2) == nil && callres[parsley.Node](1, 0) != nil && n != nil ==> same(n, callres[parsley.Node](2, 0))
 //@   ensures  [ws-error;C10] callres[parsley.Error](1, 2) == nil && callres[parsley.Node](1, 0) != nil && n == nil ==> err != nil && parsley.IsWsErr(err)
 //@   ghost_return when err != nil && err.Pos() > parsley.GhostMaxFail :: parsley.GhostMaxFail = err.Pos()
 
